@@ -17,7 +17,7 @@
     known finding m64-rejected: the property text says 1..64). *)
 From Coq Require Import NArith ZArith List Bool Lia.
 Import ListNotations.
-From OBI.C10 Require Import Model Proofs TableProofs CompString PostProofs.
+From OBI.C10 Require Import Model Proofs TableProofs CompString PostProofs PredProofs.
 
 (** *** the tables and constants of the CURRENT build (Gen/Tables.v is rewritten from the code by tools/props/c10.py regen
     before every Coq build; these theorems are therefore re-proved by the kernel on every run, and a changed entry breaks
@@ -374,6 +374,92 @@ Proof. exact parse_plain. Qed.
     - that the IUPAC nomenclature table [iupac_bases] (Model.v) is the standard one: it is the specification (26 lines), the
       Python oracle has its own copy. *)
 
+(** *** round 3 — the predicate of obigrep --approx-pattern (predicat.go: IsPatternMatchSequence over ApatPattern.IsMatching and
+    ApatPattern.ReverseComplement), [pattern_match_sequence] in Model.v *)
+
+(** IsMatching(aseq, 0, aseq.Len()) runs the automaton of the mode over the whole sequence ([strand_hits]) *)
+Theorem C10_is_matching_whole : forall pat k indel text, 1 <= List.length pat -> List.length pat <= 63 ->
+  is_matching pat k indel text 0 (Z.of_nat (List.length text)) = Ok (negb (is_nil (strand_hits pat k indel text))).
+Proof. exact is_matching_whole. Qed.
+
+(** on every pattern string of the documented grammar that MakeApatPattern accepts the predicate object is built without a
+    fatal error (the complemented string is accepted), its second pattern is the complemented pattern, and the answer is the
+    disjunction of the two strands - the second one only when both strands are wanted *)
+Theorem C10_predicate_strands : forall str P k both indel bytes,
+  hash_after_position 0 (map to_upper str) = true ->
+  make_pattern str = Some P ->
+  pattern_match_sequence str k both indel bytes =
+  PBool (negb (is_nil (strand_hits P k indel (encode_sequence bytes))) ||
+         (both && negb (is_nil (strand_hits (comp_pattern P) k indel (encode_sequence bytes))))).
+Proof. exact pattern_match_sequence_spec. Qed.
+
+(** mismatch mode: a sequence is selected iff the pattern occurs in it within the budget, or (both strands) in its REVERSE
+    COMPLEMENT - the second clause of the property seen from the sequence *)
+Theorem C10_predicate_both_strands : forall str P k both indel bytes,
+  hash_after_position 0 (map to_upper str) = true ->
+  make_pattern str = Some P ->
+  indel = false \/ k = 0 ->
+  exists b, pattern_match_sequence str k both indel bytes = PBool b /\
+    (b = true <->
+     find_all_spec P k (encode_sequence bytes) 0 <> [] \/
+     (both = true /\ find_all_spec P k (revcomp_text (encode_sequence bytes)) 0 <> [])).
+Proof. exact predicate_both_strands. Qed.
+
+(** indel mode: the same disjunction over Sellers' recurrence of the pattern and of the complemented pattern
+    (C10_indel_sound / _complete / _minimal read a non-empty [sellers_spec] as an edit script within the budget) *)
+Theorem C10_predicate_indel : forall str P k both bytes,
+  hash_after_position 0 (map to_upper str) = true ->
+  make_pattern str = Some P ->
+  1 <= k ->
+  exists b, pattern_match_sequence str k both true bytes = PBool b /\
+    (b = true <->
+     sellers_spec P k (encode_sequence bytes) 0 <> [] \/
+     (both = true /\ sellers_spec (comp_pattern P) k (encode_sequence bytes) 0 <> [])).
+Proof. exact predicate_indel. Qed.
+
+(** a refused pattern (syntax, 64 positions or more) is fatal for the command, whatever the sequences *)
+Theorem C10_predicate_refused : forall str k both indel bytes,
+  make_pattern str = None -> pattern_match_sequence str k both indel bytes = PFatal.
+Proof. exact predicate_refused. Qed.
+
+(** the command line: obigrep --approx-pattern ... keeps exactly the records on which every pattern occurs (either strand
+    unless --only-forward) - [grep_select] transcribes CLISequenceAgrep (one predicate object per pattern, combined by And) and is
+    run against the real command on every check *)
+Theorem C10_obigrep_selection : forall pats k onlyf indel seqs l,
+  grep_select 0 pats k onlyf indel seqs = Some l ->
+  forall j, In j l <->
+    exists s, (0 <= j)%Z /\ nth_error seqs (Z.to_nat j) = Some s /\
+              forall str, In str pats -> pattern_match_sequence str k (negb onlyf) indel s = PBool true.
+Proof. exact obigrep_selection. Qed.
+
+(** *** round 3 — reads holding IUPAC ambiguity codes (known finding text-ambiguity-realign).
+    obialign._samenuc contains the automaton's relation for every pattern letter but X and every read letter (regenerated
+    tables) ... *)
+Theorem C10_samenuc_contains_automaton : forall L c, plain_letter L = true -> (c < 26)%N ->
+  sym_match (dna_code L, false) c = true -> samenuc L (c + 97) = true.
+Proof. exact samenuc_contains. Qed.
+
+(** ... hence every edit script of the automaton is one of LocatePattern of at most the same cost, on EVERY read: the
+    re-aligned count is never above the automaton's edit distance ... *)
+Theorem C10_realigned_never_above : forall cs run d, forallb plain_letter cs = true -> Forall (fun c => (c < 26)%N) run ->
+  aligned (plain_pat cs) run d -> exists d', d' <= d /\ alg cs (text_bytes run) d'.
+Proof. exact realigned_never_above. Qed.
+
+(** ... but it can be below (full statement refuted: "the reported count equals the edit distance between the pattern and the
+    span" under the automaton's symbol sets; C10_allmatches_edit_distance / C10_bestmatch_edit_distance are the part that
+    holds, on a/c/g/t reads): ACGT, one error, indels, on ttacntttacgt - FindAllIndex reports [2,6) with one error, AllMatches
+    the same span with none, and no script of the automaton has cost 0 *)
+Theorem C10_text_ambiguity_counts_differ :
+  let str := [65; 67; 71; 84]%N in
+  let sq := [116; 116; 97; 99; 110; 116; 116; 116; 97; 99; 103; 116]%N in
+  exists pat l a,
+    make_pattern str = Some pat /\
+    find_all_index pat 1 true (encode_sequence sq) 0 (-1) = Ok l /\ In (2, 6, 1)%Z l /\
+    all_matches str sq 4 1 true l = Some a /\ In (2, 6, 0)%Z a /\
+    aligned pat [0; 2; 13; 19]%N 1 /\ ~ aligned pat [0; 2; 13; 19]%N 0.
+Proof. exact text_ambiguity_counts_differ. Qed.
+
+
 (** *** non-vacuity: a pattern with a class, a negation and an obligatory position; hits with 0, 1
     and 2 mismatches; the obligatory position (g#) is never a mismatch *)
 Example C10_sub_exact_nonvacuous :
@@ -405,6 +491,16 @@ Example C10_comp_string_nonvacuous :
   hash_after_position 0 (map to_upper s) = true /\
   comp_string s = [33; 91; 84; 67; 93; 35]%N /\                                 (* ![TC]# *)
   parse_pattern s <> None.
+Proof. vm_compute. repeat split; discriminate. Qed.
+
+Example C10_predicate_nonvacuous :
+  let str := [65; 65; 67; 67]%N in                                              (* AACC *)
+  let s1 := [116; 116; 103; 103; 116; 116; 97; 97]%N in                         (* ttggttaa: the site is on the other strand *)
+  hash_after_position 0 (map to_upper str) = true /\ make_pattern str <> None /\
+  pattern_match_sequence str 0 true false s1 = PBool true /\
+  pattern_match_sequence str 0 false false s1 = PBool false /\
+  pattern_match_sequence str 1 true true [103; 103; 116]%N = PBool true /\      (* ggt: ggtt cut by the end, one deletion *)
+  grep_select 0 [str; [71; 71]%N] 0 true false [s1; [97; 97; 99; 99]%N; [103; 103; 97; 97; 99; 99]%N] = Some [2]%Z.
 Proof. vm_compute. repeat split; discriminate. Qed.
 
 Print Assumptions C10_dna_code_iupac_sets.
@@ -457,3 +553,12 @@ Print Assumptions C10_allmatches_iff.
 Print Assumptions C10_parse_plain.
 Print Assumptions C10_allmatches_edit_distance.
 Print Assumptions C10_bestmatch_edit_distance.
+Print Assumptions C10_is_matching_whole.
+Print Assumptions C10_predicate_strands.
+Print Assumptions C10_predicate_both_strands.
+Print Assumptions C10_predicate_indel.
+Print Assumptions C10_predicate_refused.
+Print Assumptions C10_samenuc_contains_automaton.
+Print Assumptions C10_realigned_never_above.
+Print Assumptions C10_text_ambiguity_counts_differ.
+Print Assumptions C10_obigrep_selection.
